@@ -380,6 +380,10 @@ func c12ChunkedParts(kind string, rng *Rng) {
 		if digest != "" {
 			hdr = append(hdr, [2]string{"Content-MD5", digest})
 		}
+		if pn%2 == 1 {
+			// (what curl --data-binary sends along; the body of a part is a body whatever its Content-Type says)
+			hdr = append(hdr, [2]string{"Content-Type", []string{"application/x-www-form-urlencoded", "multipart/form-data; boundary=xyz"}[pn/2%2]})
+		}
 		return do(s.h, Req{Method: "PUT", Path: "/" + b + "/mpc?uploadId=" + queryEscape(id) + "&partNumber=" + strconv.Itoa(pn), Reader: fr, Header: hdr})
 	}
 	r1 := sendPart(1, p1, []int{1024}, []int{1}, len(p1))
